@@ -11,17 +11,21 @@ PROPS = "RlibModel.Props.C03"
 PROFILES = ["release"]
 SHRINK_SEP = ";"
 RULE = ("cases are histories `C03 <item> <stream> ; op ; op …` on a vector of live treaps (ops: new, item, merge, splitat, splitby, insert, "
-        "remove, first, last, collect, size, agg, tag, drop). (i) exhaustive small scope: every priority assignment [n]->[n] for n<=4 "
-        "(n<=5 thorough; all 120 orders of 5 in quick) — all relative orders, ties included — x every split point 0..n x three build orders, "
-        "tags before/after the split, remove at the split point (past the end once per shape); (ii) random histories of 60 operations with "
-        "priorities written by the case into the public `priority` field (7 policies: heavy ties, increasing, decreasing, 32-bit random, "
-        "small range, constant, distinct), composed operations (insert as split/from_item/merge/merge, range tag, range aggregate, "
-        "split-and-swap, sorted insert through split_by) over two items (`sum`: rlib's own test item; `aff`: affine tags that do not "
-        "commute + a positional hash whose monoid does not commute); (iii) a second stream that calls insert_at/remove_at directly with "
-        "rlib's own priorities while the model draws different ones (6 policies) — only sequence-level observables are compared, which is "
-        "sound by the theorems; (iv) a small out-of-domain stream (split_by with a non-monotone predicate, spec answer `any`). "
-        "non-trivial = distinct in-domain history in which some treap is split/merged/edited after a modifier was attached (a pending "
-        "tag crosses a restructuring), or an exhaustive small-scope case")
+        "remove, first, last, collect, size, agg, tag, drop). (i) exhaustive small scope, a full product: every priority assignment "
+        "[n]->[n] for n<=4 (n<=5 thorough; all 120 orders of 5 in quick) — all relative orders, ties included — x every split point "
+        "0..n x both items x three build orders (left-to-right, right-to-left, balanced), tags before/after the split, remove at the "
+        "split point; (ii) random histories of 25 composed operations, plus shares that first grow one treap to 20-64 and to 70-250 "
+        "nodes (aff <= 90) — the size histogram is in generator_histogram (size_max_treap_*, size_nodes_created_*); priorities written "
+        "by the case into the public `priority` field (7 policies: heavy ties, increasing, decreasing, 32-bit random, small range, "
+        "constant, distinct); composed operations: insert as split/from_item/merge/merge, range tag, range aggregate, split-and-swap; "
+        "one third of the histories keep their treaps sorted (insert through split_by, order-preserving tags, split_by at a random "
+        "element = interior cut, counted in split_by_interior*); two items (`sum`: rlib's own test item; `aff`: affine tags that do "
+        "not commute + a positional hash whose monoid does not commute); (iii) a second stream that calls insert_at/remove_at/from_item "
+        "directly with rlib's own priorities while the model draws different ones (6 policies) — only sequence-level observables are "
+        "compared, which is sound by the theorems; (iv) a small stream OUTSIDE the stated domain (1 history in 25: positions past the "
+        "end for split_at/insert_at/remove_at, non-monotone split_by predicates): spec answer `any`, only model = implementation is "
+        "compared there. non-trivial = distinct history inside the stated domain that contains a `tag` followed later by a "
+        "restructuring operation (merge/splitat/splitby/insert/remove)")
 ASSUMPTIONS = [
     "the Lean model of rlib_treap (Model/Treap.lean) is hand-written; it is tied to the code by running both on the same histories",
     "items are user code: the two harness items are written once in Rust (harness/e_treap/src/items.rs) and once in Lean "
@@ -33,7 +37,7 @@ MANIFEST = {
     "level": "proof",
     "text": ("Lean 4 theorems over an abstract lawful item (laws as hypotheses, nothing commutative) and arbitrary priorities (ties included): "
              "merge = ++, split_at = take/drop for every position, split_by = takeWhile/dropWhile for prefix-monotone predicates, "
-             "insert_at / remove_at (incl. the unwrap panic past the end), first/last/collect/size, the root aggregate is the in-order "
+             "insert_at / remove_at (the theorems also cover positions past the end, which the check treats as outside the stated domain), first/last/collect/size, the root aggregate is the in-order "
              "fold of exactly that subsequence, a modifier attached at a root maps over exactly that tree's elements once and in "
              "attachment order, and `history_refines`: any history on any number of live treaps refines the same history on plain "
              "lists, observation for observation. The two harness items (incl. a non-commuting assign/add/negate tag item with a "
@@ -61,8 +65,8 @@ def nontrivial(case, rec):
 
 
 def extract(repo):
-    """Anchors the model depends on: the comparison that picks the merged root, the comparison of
-    `split_at`, push-before / update-after in the three restructuring functions."""
+    """What the harness depends on textually: the priority type it writes and the public fields it reads/writes.
+    (The behaviour of merge/split is tied by the differential run, not by text anchors.)"""
     problems = []
     params = {}
     p = os.path.join(repo, "rlib/treap/src/treap_node.rs")
